@@ -61,11 +61,26 @@ type c11Informer struct {
 	node                          *corev1.Node
 	slo                           *slov1alpha1.NodeSLO
 	pods                          []*statesinformer.PodMeta
+	shuffle                       *kit.Rand
+	calls                         int
 }
 
 func (i *c11Informer) GetNode() *corev1.Node                { return i.node }
 func (i *c11Informer) GetNodeSLO() *slov1alpha1.NodeSLO      { return i.slo }
-func (i *c11Informer) GetAllPods() []*statesinformer.PodMeta { return i.pods }
+// GetAllPods behaves like the real pods informer: every call returns fresh deep copies of all pods (the real one
+// copies under its lock and iterates a map, so neither pointers nor order are stable between two calls; the
+// order here is a deterministic shuffle drawn from the case PRNG).
+func (i *c11Informer) GetAllPods() []*statesinformer.PodMeta {
+	out := make([]*statesinformer.PodMeta, 0, len(i.pods))
+	for _, pm := range i.pods {
+		out = append(out, &statesinformer.PodMeta{Pod: pm.Pod.DeepCopy(), CgroupDir: pm.CgroupDir})
+	}
+	if i.shuffle != nil {
+		kit.Shuffle(i.shuffle, out)
+	}
+	i.calls++
+	return out
+}
 
 type c11Metric struct {
 	avg, last float64
@@ -956,7 +971,7 @@ func TestVerifC11MemoryEvict(t *testing.T) {
 			c.Harness("feature gates: %v", err)
 		}
 		metriccache.DefaultAggregateResultFactory = &c11Factory{table: cs.table}
-		inf := &c11Informer{node: cs.node, slo: &slov1alpha1.NodeSLO{Spec: slov1alpha1.NodeSLOSpec{ResourceUsedThresholdWithBE: cs.thr}}}
+		inf := &c11Informer{shuffle: r.Fork(), node: cs.node, slo: &slov1alpha1.NodeSLO{Spec: slov1alpha1.NodeSLOSpec{ResourceUsedThresholdWithBE: cs.thr}}}
 		for _, p := range cs.pods {
 			inf.pods = append(inf.pods, &statesinformer.PodMeta{Pod: p})
 		}
